@@ -387,8 +387,10 @@ class ThingSa:
             __tablename__ = "thing"
             id = sa.Column(sa.Integer, primary_key=True)
             n = sa.Column(sa.Integer)
+            m = sa.Column(sa.Integer)
             f = sa.Column(sa.Float)
             s = sa.Column(sa.String)
+            u = sa.Column(sa.String)
             b = sa.Column(sa.Boolean)
             d = sa.Column(sa.DateTime)
             dd = sa.Column(sa.Date)
